@@ -15,16 +15,32 @@ REQUIRED = ['Librfn.C20.history_refines', 'Librfn.C20.getLine_spec', 'Librfn.C20
 FOLD = 0x7fffffff
 
 
+STRS = ['', 'a', 'hello', 'percent%sign and spaces']
+
+
+def render(f, a, b, c):
+    f %= 16
+    if f < 8: return f'F{f} {a} {b} {c}'
+    if f == 8: return 'L' + 'x' * 150 + f' {a} {b} {c}'
+    if f == 9: return 'M' + 'x' * 121 + f'{a}'
+    if f == 10: return 'W[' + str(b).rjust(a % 13) + f']{c}'
+    if f == 11: return f'P%|{a}|%{b}|{c}'
+    if f == 12: return f'S {STRS[a % 4]} {b} {c}'
+    if f == 13: return 'T' + STRS[b % 4][:a % 7] + f'|{c}'
+    if f == 14: return ''
+    return 'no conversions at all'
+
+
 def spec(h):
     """independent oracle from the property text: list of messages since the last clear"""
     msgs, out = [], []
     for l in h:
         w = l.split()
         if w[0] == 'log':
-            msgs.append('F%d %s %s %s' % (int(w[1]) % 8, w[2], w[3], w[4])); out.append('ok')
+            msgs.append(render(int(w[1]), int(w[2]), int(w[3]), int(w[4]))); out.append('ok')
         elif w[0] == 'nice':
             if len(msgs) < 256:
-                msgs.append('F%d %s %s %s' % (int(w[1]) % 8, w[2], w[3], w[4]))
+                msgs.append(render(int(w[1]), int(w[2]), int(w[3]), int(w[4])))
             out.append('ok')
         elif w[0] == 'clear':
             msgs = []; out.append('ok')
@@ -57,7 +73,7 @@ def valid(h):
 def gen_history(rng, tier):
     h, n = [], 0
     def rec():
-        return f'{rng.below(8)} {rng.below(1000)} {rng.below(1 << 32)} {rng.choice([0, 1, 255, 1 << 40, (1 << 64) - 1])}'
+        return f'{rng.below(16) if rng.chance(1, 2) else rng.below(8)} {rng.choice([rng.below(1000), rng.below(13), 10 ** rng.below(8)])} {rng.below(1 << 32)} {rng.choice([0, 1, 255, 1 << 40, (1 << 64) - 1])}'
     def reads():
         ks = [0, 1, n - 1, n, 255, 256, 257, -1, -2, -256, 2147483647, -2147483648, min(n, 256) - 1, min(n, 256), rng.range(-300, 600)]
         for k in rng.shuffle(ks)[:rng.range(2, 8)]:
